@@ -13,11 +13,17 @@ def snapshot(model):
     """constants, formula texts, defined names and the set of cells (what evaluation must never change)"""
     L = xl.lib()
     cells = {}
+    nblank = 0
     for a, c in model.cells.items():
         if c.formula is None:
-            cells[a] = ('const', json.dumps(xl.to_abs(c.value), sort_keys=True))
+            v = c.value
+            if v is None or (isinstance(v, str) and v == ''):
+                nblank += 1          # the placeholders of whole rows / large ranges: counted, not listed one by one
+                continue
+            cells[a] = ('const', json.dumps(xl.to_abs(v), sort_keys=True))
         else:
             cells[a] = ('formula', c.formula.formula)
+    cells['#blank-placeholders'] = ('count', nblank)
     names = {}
     for n, d in model.defined_names.items():
         names[n] = d.address if isinstance(d, L.xltypes.XLCell) else repr(getattr(d, 'cells', d))
@@ -30,7 +36,7 @@ class Worker:
 
     def __call__(self, blocks):
         L = xl.lib()
-        out = {'n': 0, 'steps': 0, 'dis': [], 'samples': [], 'shapes': {}}
+        out = {'n': 0, 'steps': 0, 'dis': [], 'samples': [], 'shapes': {}, 'responses': {}}
         for b in blocks:
             st = pool.parse_block(b)
             hist, shape = st['hist'], st['shape']
@@ -43,6 +49,7 @@ class Worker:
             model = W.build_model(pycells, names)
             before = snapshot(model)
             evs = [L.Evaluator(model), L.Evaluator(model)]
+            inputs = {}
             for i, h in enumerate(hist):
                 a = W.addr(h['x'])
                 try:
@@ -51,6 +58,7 @@ class Worker:
                     elif h['op'] == 'set':
                         evs[0].set_cell_value(a, xl.from_abs(h['v'], 'native'))
                         before[0][a] = ('const', json.dumps(h['v'], sort_keys=True))
+                        inputs[a] = json.dumps(h['v'], sort_keys=True)
                         continue
                     else:
                         continue
@@ -58,6 +66,14 @@ class Worker:
                     if isinstance(e, (KeyboardInterrupt, SystemExit)):
                         raise
                     obs = xl.to_abs(e)
+                # the response is a function of the content alone: recorded per (shape, inputs, cell) and compared across ALL
+                # schedules, also where the specification leaves the value itself open
+                key = json.dumps([shape, sorted(inputs.items()), a])
+                if obs.get('t') == 'exc':
+                    obs_key = json.dumps({'t': 'exc', 'cls': obs.get('cls')})
+                else:
+                    obs_key = json.dumps(obs, sort_keys=True)
+                out['responses'].setdefault(key, {}).setdefault(obs_key, [[h2['op'], h2.get('e'), W.addr(h2['x'])] for h2 in hist[:i + 1]])
                 bad = None
                 if agrees(obs, h['res']) is False:
                     bad = ('evaluate-result', h['res'], obs)
@@ -75,6 +91,13 @@ class Worker:
                 out['samples'].append({'shape': shape, 'schedule': [[h2['op'], h2.get('e'), W.addr(h2['x'])] for h2 in hist],
                                        'responses': [h2['res'] for h2 in hist]})
         return out
+
+
+def all_close(keys):
+    """observed responses (JSON) that differ only by floating-point noise count as one"""
+    vals = [json.loads(k) for k in keys]
+    first = vals[0]
+    return all(v == first or (agrees(v, first) is True and agrees(first, v) is True) for v in vals[1:])
 
 
 FOOTPRINT_SRC = r'''
@@ -157,8 +180,16 @@ def run(run):
     # schedules that also change an input in between (two evaluators, one model)
     r2 = run.tlc('MC_C04', 'C05_mixed_cases.cfg', dump=True, timeout=1800)
     blocks += [b for b in pool.dump_blocks(r2.dump) if b.count('op |->') >= 4]
+    # whole-row references (their models hold tens of thousands of placeholder cells: short schedules only)
+    r3 = run.tlc('MC_C04', 'C05_rows_cases.cfg', dump=True, timeout=900)
+    blocks += [b for b in pool.dump_blocks(r3.dump) if b.count('op |->') >= 3]
     shapes_n = {}
+    responses = {}
     for res in pool.pmap(Worker(run.work, shapes), blocks):
+        for key, variants in res['responses'].items():
+            tgt = responses.setdefault(key, {})
+            for ok_, sched in variants.items():
+                tgt.setdefault(ok_, sched)
         run.evaluations += res['steps']
         run.traces += res['n']
         run.nontrivial_count += res['n']
@@ -169,6 +200,14 @@ def run(run):
         for d in res['dis']:
             run.disagree('schedule', d['case'], d['exp'], d['obs'], d['features'], clause=d['clause'])
     run.notes['schedules_by_shape'] = shapes_n
+    run.notes['contents_compared_across_schedules'] = len(responses)
+    for key, variants in responses.items():
+        if len(variants) > 1 and not all_close(list(variants)):
+            shape, inputs, cell = json.loads(key)
+            obs = {k: v for k, v in list(variants.items())[:3]}
+            run.disagree('schedule', {'shape': shape, 'inputs_set': inputs, 'cell': cell, 'schedules': list(obs.values())},
+                         'one response for one content', [json.loads(k) for k in obs],
+                         {'shape': shape, 'clause': 'response-depends-on-schedule'}, clause='response-depends-on-schedule')
     fshapes = {k: v for k, v in shapes.items() if not quick or k in ('chain', 'range', 'kinds', 'twin')}
     footprint(run, fshapes, 2000 if quick else 20000)
     run.rule = (f'all schedules (permutations with repetition) of length {maxlen} of Evaluate(evaluator in {{1,2}}, cell) on 5 model shapes, '
